@@ -183,12 +183,21 @@ def sys_combine():
     return sys.modules["amr_kitchen.combine.combine"].combine
 
 
-def do_combine(pa, pb, out, v1, v2):
+def do_combine(pa, pb, out, v1, v2, aspath=False):
+    """aspath: the three paths are given as pathlib.Path objects (honoured, or refused - then the call is repeated with strings)"""
     from amr_kitchen import PlotfileCooker
     from amr_kitchen.combine import combine as cmb
     import amr_kitchen
     import sys
+    import pathlib
     fn = sys.modules["amr_kitchen.combine.combine"].combine
+    if aspath:
+        with vpool.controlled() as ctl:
+            with audit.recording() as ev:
+                st, val = call(lambda: fn(PlotfileCooker(pathlib.Path(pa)), PlotfileCooker(pathlib.Path(pb)), pltout=pathlib.Path(out), vars1=v1, vars2=v2))
+        if st != "exc":
+            return st, val, ctl, ev
+        shutil.rmtree(out, ignore_errors=True)
     with vpool.controlled() as ctl:
         with audit.recording() as ev:
             st, val = call(lambda: fn(PlotfileCooker(pa), PlotfileCooker(pb), pltout=out, vars1=v1, vars2=v2))
@@ -346,7 +355,7 @@ def run_case(case, workdir):
             v2 = None if f2 is None else f2[1]
             sub = {"la": case["la"], "lb": case["lb"], "vars1": v1, "vars2": v2,
                    "form1": None if f1 is None else f1[0], "form2": None if f2 is None else f2[0]}
-            st, val, ctl, ev = do_combine(pa, pb, out, v1, v2)
+            st, val, ctl, ev = do_combine(pa, pb, out, v1, v2, aspath=(k + dh) % 3 == 0)
             nontriv = case["la"] != case["lb"] or sel != (None, None)
             rec.exe([dh, sub], nontrivial=nontriv, trans=1 + sum(c["n"] for c in ctl.calls))
             if st == "exc":
